@@ -184,7 +184,7 @@ def optimizers(rng):
 def oracle(ctx, nprog=None):
     import cubed
     Rec = make_exec()
-    nprog = nprog or ctx.budget(8, 80)
+    nprog = nprog or ctx.budget(8, 28)
     for _ in range(nprog):
         prog = dx.gen_dag_program(ctx.rng)
         try:
@@ -242,7 +242,7 @@ def corr(ctx):
     from cubed.core.plan import arrays_to_plan
 
     reqs, exp, metas = [], [], []
-    for _ in range(ctx.budget(25, 250)):
+    for _ in range(ctx.budget(25, 120)):
         prog = dx.gen_dag_program(ctx.rng)
         # generous measure, then tight budgets so that the memory test inside can_fuse matters
         try:
@@ -313,4 +313,4 @@ def search(ctx):
     if any(not (f["key"] and ctx.known(f["key"])) for f in ctx.failures):
         return
     ctx.rng.seed(ctx.seed + 15485863)
-    oracle(ctx, nprog=ctx.budget(25, 150))
+    oracle(ctx, nprog=ctx.budget(25, 60))
